@@ -10,12 +10,11 @@ import (
 
 	"github.com/parquet-go/parquet-go"
 	"github.com/parquet-go/parquet-go/format"
+
+	"verif/harness/core"
 )
 
-func init() {
-	registry["C06"] = runC06
-	replayRegistry["C06"] = replayC06
-}
+func main() { core.Main("C06", runC06, replayC06) }
 
 // c06Page is one page of a column index: Null or [Min,Max].
 type c06Page struct {
@@ -131,9 +130,9 @@ func c06Request(cs *c06Case) string {
 		if p.Null {
 			sb.WriteString("N")
 		} else if cs.Kind == "int64" {
-			sb.WriteString(zs(p.Min) + ":" + zs(p.Max))
+			sb.WriteString(core.Zs(p.Min) + ":" + core.Zs(p.Max))
 		} else {
-			sb.WriteString(hexs(c06Bytes(p.Min)) + ":" + hexs(c06Bytes(p.Max)))
+			sb.WriteString(core.Hexs(c06Bytes(p.Min)) + ":" + core.Hexs(c06Bytes(p.Max)))
 		}
 	}
 	sb.WriteByte(' ')
@@ -142,9 +141,9 @@ func c06Request(cs *c06Case) string {
 			sb.WriteByte(',')
 		}
 		if cs.Kind == "int64" {
-			sb.WriteString(zs(v))
+			sb.WriteString(core.Zs(v))
 		} else {
-			sb.WriteString(hexs(c06Bytes(v)))
+			sb.WriteString(core.Hexs(c06Bytes(v)))
 		}
 	}
 	return sb.String()
@@ -160,7 +159,7 @@ func b01(b bool) string {
 // c06Run executes one case on the implementation and on the model, evaluates
 // the three statements of the property on the implementation's answers.
 // Returns false if a violation or mismatch was recorded.
-func c06Check(c *Ctx, cs *c06Case) bool {
+func c06Check(c *core.Ctx, cs *c06Case) bool {
 	index, typ := c06Build(cs)
 	cmp := parquet.CompareNullsLast(typ.Compare)
 	if cs.NullsFirst {
@@ -234,7 +233,7 @@ func c06Check(c *Ctx, cs *c06Case) bool {
 }
 
 // c06Run checks a case; a failing case is shrunk before it is reported.
-func c06Run(c *Ctx, cs *c06Case, bucket string, record bool) bool {
+func c06Run(c *core.Ctx, cs *c06Case, bucket string, record bool) bool {
 	ok := true
 	if c.Probe(func() { c06Check(c, cs) }) {
 		ok = false
@@ -254,17 +253,17 @@ func c06VmCase(cs *c06Case, impl []int) string {
 		if p.Null {
 			pages = append(pages, "None")
 		} else {
-			pages = append(pages, fmt.Sprintf("Some (%s, %s)", coqZ(p.Min), coqZ(p.Max)))
+			pages = append(pages, fmt.Sprintf("Some (%s, %s)", core.CoqZ(p.Min), core.CoqZ(p.Max)))
 		}
 	}
 	var out []string
 	for i, v := range cs.Probes {
-		out = append(out, fmt.Sprintf("(%s, %s, %s, %s, %d%%nat)", coqBool(cs.NullsFirst), coqBool(cs.Ascending), coqList(pages), coqZ(v), impl[i]))
+		out = append(out, fmt.Sprintf("(%s, %s, %s, %s, %d%%nat)", core.CoqBool(cs.NullsFirst), core.CoqBool(cs.Ascending), core.CoqList(pages), core.CoqZ(v), impl[i]))
 	}
 	return strings.Join(out, ";\n  ")
 }
 
-func runC06(c *Ctx) {
+func runC06(c *core.Ctx) {
 	c.Res.Rule = "column indexes enumerated exhaustively over a small value domain (every null-page placement, every bounds combination, ascending claimed only when true of the non-null pages, and unordered) plus random larger indexes and indexes read back from written files; each probed with every domain value through Find with CompareNullsLast and CompareNullsFirst (and Search). A case is one (index, comparator, flag) with all probes; non-trivial = at least 2 pages; distinct by the JSON of the case."
 	var vm []string
 	addVm := func(cs *c06Case) {
@@ -408,7 +407,7 @@ func runC06(c *Ctx) {
 }
 
 // c06Shrink minimises a failing case (pages, then probes).
-func c06Shrink(c *Ctx, cs *c06Case) *c06Case {
+func c06Shrink(c *core.Ctx, cs *c06Case) *c06Case {
 	fails := func(t *c06Case) bool {
 		if !c06WellFormed(t) {
 			return false
@@ -446,7 +445,7 @@ func c06Shrink(c *Ctx, cs *c06Case) *c06Case {
 
 // c06Files: indexes produced by the writer itself, searched for every value
 // that is actually present in a page.
-func c06Files(c *Ctx) {
+func c06Files(c *core.Ctx) {
 	type row struct {
 		A *int64 `parquet:"a,optional"`
 		B string `parquet:"b"`
@@ -542,7 +541,7 @@ func c06Files(c *Ctx) {
 	}
 }
 
-func replayC06(c *Ctx, raw json.RawMessage) {
+func replayC06(c *core.Ctx, raw json.RawMessage) {
 	var cs c06Case
 	if err := json.Unmarshal(raw, &cs); err != nil || cs.Kind == "" {
 		c.Note("replay is not an in-memory index case; rerun the check with the recorded seed")
